@@ -63,7 +63,10 @@ impl Scenario {
     }
 }
 
-pub const VERIF_DIR: &str = "/verif";
+/// root of the verification tree (known findings, replays); `./check` exports its own location
+pub fn verif_dir() -> String {
+    std::env::var("VERIF_DIR").unwrap_or_else(|_| "/verif".to_string())
+}
 
 fn base_seed() -> u64 {
     match std::env::var("VERIF_SEED") {
@@ -305,6 +308,14 @@ fn run_scenario(exe: &std::path::Path, sc: &Scenario, base: u64, total: u64, job
         if slots.iter().all(|s| s.is_none()) {
             break;
         }
+        // a scenario that keeps killing its workers is not explored further: the violation is
+        // established, and every further death costs a process start
+        let fatal = agg.found.iter().filter(|f| f.violation.oracle == "process-died" || f.violation.oracle == "hang").count();
+        if fatal >= 24 && (next < total || !pending.is_empty()) {
+            println!("  {}: {} runs killed their worker; remaining runs of this scenario are skipped", full, fatal);
+            next = total;
+            pending.clear();
+        }
         match rx.recv_timeout(Duration::from_millis(200)) {
             Ok(Msg::Line(i, line)) => {
                 let Some(slot) = slots[i].as_mut() else { continue };
@@ -444,7 +455,7 @@ pub struct Known {
 }
 
 pub fn load_known() -> Vec<Known> {
-    let path = format!("{VERIF_DIR}/known_findings.txt");
+    let path = format!("{}/known_findings.txt", verif_dir());
     let text = std::fs::read_to_string(path).unwrap_or_default();
     let mut out = Vec::new();
     for line in text.lines() {
@@ -551,7 +562,7 @@ fn eval_inproc(sc: &Scenario, values: [Vec<u64>; 3], verbose: bool) -> (Option<V
 /// Runs the scenario from bare values in a child process (needed when the violation kills or
 /// hangs the process).
 fn eval_subproc(exe: &std::path::Path, sc: &Scenario, values: &[Vec<u64>; 3]) -> Option<String> {
-    let dir = format!("{VERIF_DIR}/target/tmp");
+    let dir = format!("{}/target/tmp", verif_dir());
     let _ = std::fs::create_dir_all(&dir);
     let path = format!("{dir}/probe-{}.json", std::process::id());
     let j = Json::Arr(
@@ -792,7 +803,7 @@ fn write_replay(
         },
         None => (None, Vec::new(), None, detail),
     };
-    let dir = format!("{VERIF_DIR}/replays");
+    let dir = format!("{}/replays", verif_dir());
     let _ = std::fs::create_dir_all(&dir);
     let h = fnv(key.as_bytes()) & 0xffff_ffff;
     let path = format!("{dir}/{}-{}-{}-{:08x}.json", sc.property, sc.name, base, h);
